@@ -34,6 +34,8 @@ func init() {
 			{"rel-attach", "relationship type → owning list and target ↔ stored part key", ruleRelAttach},
 			{"ref-flow", "body references carry the id of the relationship just created", ruleRefFlow},
 			{"clone-alias", "a rendered document does not share its relationship lists with the template (mutability-aware alias analysis of cloneDocument)", ruleCloneAliasFor("Relationships", "Document")},
+			{"rel-append-only", "relationship lists of an existing document are only appended to (shape of every store)", ruleRelAppendOnly},
+			{"alloc-scans-all", "the id allocator's scanning loop has no early exit", ruleAllocScansAll},
 		},
 		Assumptions: commonAssumptions,
 	}
@@ -57,6 +59,7 @@ func init() {
 			{"schema-opc", "OPC attribute table vs struct tags", ruleSchemaOPC},
 			{"fresh-dep/media", "media naming depends on a restored, incremented counter", ruleMediaFresh},
 			{"run-container", "paragraph reader descends into run containers", ruleRunContainer},
+			{"rel-append-only", "relationship lists of an opened document are only appended to", ruleRelAppendOnly},
 		},
 		Assumptions: commonAssumptions,
 	}
@@ -127,6 +130,7 @@ func init() {
 			{"rel-attach", "target ↔ part key", ruleRelAttachImage},
 			{"fresh-dep/relid", "image relationship ids depend on existing ids", ruleFreshRelIDImage},
 			{"config-pure", "image API never writes into the caller's ImageConfig/ImageSize (mutation summaries)", ruleConfigPure},
+			{"alloc-scans-all", "the relationship id allocator's scanning loop has no early exit", ruleAllocScansAll},
 		},
 		Assumptions: commonAssumptions,
 	}
@@ -139,6 +143,7 @@ func init() {
 			{"kind-injective", "getFileNameForType maps kinds to distinct constants", ruleKindInjective},
 			{"ref-flow", "reference id = relationship id", ruleRefFlowHF},
 			{"clone-alias", "rendered documents do not share header/footer reference objects with the template", ruleCloneAliasFor("SectionProperties", "HeaderFooterReference")},
+			{"alloc-scans-all", "the relationship id allocator's scanning loop has no early exit", ruleAllocScansAll},
 		},
 		Assumptions: commonAssumptions,
 	}
